@@ -94,8 +94,14 @@ func Run(c *ev.Ctx) {
 
 	kvset := func(v string) world.Op { return cmdlib.KVSpec{Verb: api.KVSet, Key: "k", Val: v}.Op() }
 	kvdel := cmdlib.KVSpec{Verb: api.KVDelete, Key: "k"}.Op()
+	// a longer key that starts with the same characters: an exact-key lookup must not see it. It is written
+	// last so that "stale" for the absent key (next-1) is exactly the sibling's modify index.
+	kvsib := cmdlib.KVSpec{Verb: api.KVSet, Key: "k/sub", Val: "sibling"}.Op()
+	kvsib2 := cmdlib.KVSpec{Verb: api.KVSet, Key: "kz", Val: "sibling"}.Op()
 	kvPres := []prestate{{"absent", nil}, {"present", ops(kvset("a"))}, {"modified", ops(kvset("a"), kvset("b"))},
-		{"re-created", ops(kvset("a"), kvdel, kvset("c"))}, {"deleted", ops(kvset("a"), kvdel)}}
+		{"re-created", ops(kvset("a"), kvdel, kvset("c"))}, {"deleted", ops(kvset("a"), kvdel)},
+		{"absent-with-longer-sibling", ops(kvsib)}, {"deleted-with-longer-siblings", ops(kvset("a"), kvdel, kvsib2, kvsib)},
+		{"present-with-longer-sibling", ops(kvset("a"), kvsib)}}
 	kvCur := func(w *world.World) uint64 {
 		_, e, _ := w.Store().KVSGet(nil, "k", nil)
 		if e == nil {
